@@ -1,0 +1,21 @@
+//go:build verif
+
+package subgroup
+
+// Machine-checked contracts for /verif (govc). Comment-only: compiled only with -tags verif, adds no code.
+
+// C35 / C32 (safety half): decoding arbitrary bytes received from a MoQ peer - before any authentication -
+// never indexes or slices out of range, never converts a length into a negative size and never asserts a wrong
+// type, and every make() size is bounded by the protocol limit that guards it.
+
+//@ func (h *Header) read
+//@   property C35, C32
+//@   safety alloc-bound, -ovf
+
+//@ func (o *Object) read
+//@   property C35, C32
+//@   safety alloc-bound, -ovf
+
+//@ func (s *SubGroup) Read
+//@   property C35, C32
+//@   safety alloc-bound, -ovf
